@@ -4,6 +4,7 @@ CONSTANTS
  DevNoFallback = FALSE
  DevSkipMax = FALSE
  DevUnwrapNoAlgCheck = FALSE
+ DevRetryKeepsBuffer = FALSE
 INIT TInit
 NEXT TNext
 POSTCONDITION Reached
